@@ -49,8 +49,9 @@ def true_returns(f):
 
 
 def search_floor(f, start_expr):
-    """the field F such that the start of the search is max(clock now, F): std::max(now, F) in any argument order, or a local initialised from the clock value and raised
-    to F under `local < F`.  Returns the qualified field name or None."""
+    """the field F the start of the search can be taken from besides the clock value: std::max(now, F) in any argument order, or a local initialised from the clock
+    value and set to F under some condition (a clamp `local < F`, or the window `F > now && F - now <= 1` that keeps the floor only for an instant that fired a moment
+    early).  Which condition is right is behaviour, decided by the replay C20.R15; this finds the field.  Returns the qualified field name or None."""
     found = []
     def is_max(g, sx):
         if sx['k'] in q.CALL_KINDS and sx.get('callee', '').startswith('std::max') and len(sx.get('args', [])) == 2:
@@ -62,24 +63,32 @@ def search_floor(f, start_expr):
         return False
     if flows_from(f, start_expr, is_max) and found:
         return found[0]
-    # clamp form (looked for through the locals the start value is computed from)
+    # conditional forms (looked for through the locals the start value is computed from): some definition or conditional expression takes the field, and the field is one
+    # the function compares with something (the explicit time-zone offset also reaches the start value through a conditional, but is never compared)
+    compared = set()
+    for sx in f.stmts:
+        if sx and sx['k'] == 'BinaryOperator' and sx.get('op') in ('<', '>', '<=', '>='):
+            for c in sx['ch']:
+                if f.field_of(c):
+                    compared.add(f.field_of(c))
     seen, work = set(), [start_expr]
     while work:
         e = work.pop()
         for x in f.walk(e):
             sx = f.stmts[x]
+            if sx['k'] == 'ConditionalOperator':
+                for c in sx['ch'][1:]:
+                    if f.field_of(c) in compared:
+                        return f.field_of(c)
             if sx['k'] != 'DeclRefExpr' or sx.get('dk') != 'Var' or sx['d'] in seen:
                 continue
             seen.add(sx['d'])
             for d in rd.local_defs(f, sx['d']):
                 if d['rhs'] is not None and len(seen) < 12:
                     work.append(d['rhs'])
-                if d['kind'] == '=' and d['rhs'] is not None and f.field_of(d['rhs']) and d['point'] is not None:
-                    fq = f.field_of(d['rhs'])
-                    for cond, k, b_ in f.cfg.controlling_branches(d['point']):
-                        for l, o, r in q.edge_rels(f, cond, k):
-                            if l == sx['n'] and o == '<' and r.endswith(fq.split('::')[-1]):
-                                return fq
+                if d['kind'] == '=' and d['rhs'] is not None and f.field_of(d['rhs']) in compared and d['point'] is not None:
+                    if f.cfg.controlling_branches(d['point']):
+                        return f.field_of(d['rhs'])
     return None
 
 
@@ -128,8 +137,8 @@ def r1(ctx, prog):
 
 
 def r2(ctx, prog):
-    ctx.rule('C20.R2', 'A4 order + depends-on: the alarm re-arms (storing the new target) before the user callback; the next instant is computed from '
-                       'max(now, previous target) so an early wake-up cannot fire the same instant twice', floor=3)
+    ctx.rule('C20.R2', 'A4 order + depends-on: the alarm re-arms (storing the new target) before the user callback; the start of the search for the next instant can be '
+                       'taken from an instant the alarm keeps (not from the clock alone), so an early wake-up need not compute the instant just served again', floor=3)
     e = prog.fn1(AL + '::onTimeExpired')
     at = q.calls(e, callee=AL + '::activeTimer')
     inv = q.invokes(e, 'cb_')
@@ -142,7 +151,7 @@ def r2(ctx, prog):
     ok = search_floor(f, calc[0]['args'][0]) is not None
     # and the other operand of max is the clock value read in this call
     clock = [st for st in f.calls() if 'GetCurrentUtcTime' in st.get('callee', '')]
-    ctx.ob('C20.R2', '%s|start-from-max' % f.name, ok and bool(clock), 'the start of the next computation depends on std::max(<clock now>, <instant kept by the alarm>)', where=f.loc(calc[0]['i']))
+    ctx.ob('C20.R2', '%s|start-from-max' % f.name, ok and bool(clock), 'the start of the next computation is the clock value or, under a condition on it, an instant kept by the alarm', where=f.loc(calc[0]['i']))
     st_t = [a for a, rhs in q.assigns(f, 'Alarm::target_utc_sec_')]
     en = [st for st in f.calls() if st.get('fn') == 'enable' and 'obj' in st and (f.field_of(st['obj']) or '').endswith('sp_timer_ev_')]
     ctx.ob('C20.R2', '%s|target-stored' % f.name, bool(st_t) and bool(en) and q.must_follow(f, q.pt(f, en[0]), q.pts(f, st_t)),
@@ -376,7 +385,7 @@ def r6(ctx, prog):
 
 
 def r8(ctx, prog):
-    ctx.rule('C20.R8', 'A5 the search floor is a fired instant: the field F in std::max(now, F) that starts the search for the next instant only ever holds an instant that '
+    ctx.rule('C20.R8', 'A5 the search floor is a fired instant: the field F that the start of the search for the next instant can be taken from instead of the clock value only ever holds an instant that '
              'has already fired — either F is written (non-zero) only in the expiry handlers, from the armed target, before re-arming; or, where F is written when the '
              'timer is armed, every method that cancels the armed timer without firing (sp_timer_ev_->disable()) also clears F. Otherwise enable() after disable() '
              'searches strictly after an instant that never fired and skips it', floor=2)
@@ -386,7 +395,7 @@ def r8(ctx, prog):
         raise AnalysisBroken('activeTimer: calculateNextLocalTimeSec call not found')
     F = search_floor(f, calc[0]['args'][0])
     if F is None:
-        raise AnalysisBroken('activeTimer: the start of the search is not max(now, <field>)')
+        raise AnalysisBroken('activeTimer: the start of the search is never taken from a field of the alarm')
     short = F.split('::')[-1]
     fam = [AL] + prog.derived_classes(AL)
     methods = [g for c in fam for g in prog.methods_of(c)]
